@@ -81,6 +81,9 @@ var c10EvalCfgs = []c10EvalCfg{
 	{exprs: []c10EvalExpr{c10ExFF}, as: []string{"f"}, keep: true},
 	{exprs: []c10EvalExpr{c10ExFF, c10ExFF}, as: []string{"f", "y"}},
 	{exprs: []c10EvalExpr{c10ExTZ}, as: []string{"x"}, keep: true, keepList: []string{"t", "x"}, useTag: true}, // t is a tag, not a field
+	// a result stored under the name of an existing field, and that name in the keep list:
+	// the kept value is the result (eval(lambda: "f" * 2).as('f').keep('f', 'g'))
+	{exprs: []c10EvalExpr{c10ExFF}, as: []string{"f"}, keep: true, keepList: []string{"f", "g"}},
 }
 
 // c10EvalRef is the documented eval transformation: expressions in order, each result
